@@ -3,6 +3,7 @@ package govc
 import (
 	"fmt"
 	"os"
+	"go/token"
 	"go/types"
 	"strings"
 
@@ -949,6 +950,38 @@ func (e *FnEnc) backEdge(from *ssa.BasicBlock, li *loopInfo) {
 			if !clauseActive(c, e.prop) {
 				continue
 			}
+			// a latch that several paths of the body run into (the "i++" block of a three-clause for loop): one obligation
+			// per incoming path (a sound case split: the paths' edge guards cover the latch's guard); under one edge the
+			// merged state collapses to that path's state, which is what the solvers need
+			var ins []*ssa.BasicBlock
+			for _, p := range from.Preds {
+				if _, done := e.exit[p]; done && !isBackEdge(p, from) && p != from {
+					dup := false
+					for _, q := range ins {
+						dup = dup || q == p
+					}
+					if !dup {
+						ins = append(ins, p)
+					}
+				}
+			}
+			n0 := len(e.obls)
+			e.obligeClause(env, c, fmt.Sprintf("loop%d.inv%d.preserved@b%d", li.ordinal, k+1, from.Index), "inv-preserved", g, fmt.Sprintf("%s:%d", shortFile(c.File), c.Line))
+			n1 := len(e.obls)
+			if len(ins) >= 2 && len(ins) <= 8 && e.loops[from] == nil && !e.pure {
+				// alternatives, tried when the solvers do not decide the obligation as a whole
+				for _, p := range ins {
+					e.obligeClause(env, c, fmt.Sprintf("loop%d.inv%d.preserved@b%d.from-b%d", li.ordinal, k+1, from.Index, p.Index), "inv-preserved", and(g, e.edgeGuard(p, from)), fmt.Sprintf("%s:%d", shortFile(c.File), c.Line))
+					part := e.obls[n1:]
+					if len(part) == n1-n0 {
+						for j, a := range part {
+							e.obls[n0+j].Alts = append(e.obls[n0+j].Alts, a)
+						}
+					}
+					e.obls = e.obls[:n1]
+				}
+			}
+			continue
 			e.obligeClause(env, c, fmt.Sprintf("loop%d.inv%d.preserved@b%d", li.ordinal, k+1, from.Index), "inv-preserved", g, fmt.Sprintf("%s:%d", shortFile(c.File), c.Line))
 		}
 		if lc.Decreases != nil {
@@ -1180,6 +1213,34 @@ func (e *FnEnc) lookupName1(env *Env, name string, phiOver map[*ssa.Phi]Val) (Va
 					return Val{T: sx("+", v.T, "1"), Ty: tInt}, true
 				}
 			}
+			if name == "#i" && ci == 0 {
+				// an explicit counting loop "for i := 0; ...; i++": the counter is the number of completed iterations,
+				// exactly what #i denotes in the range form of the same loop
+				var cnt *ssa.Phi
+				n := 0
+				for _, in := range li.header.Instrs {
+					p, ok := in.(*ssa.Phi)
+					if !ok {
+						break
+					}
+					if canonicalCounter(p, li) {
+						cnt = p
+						n++
+					}
+				}
+				if n == 1 {
+					p := cnt
+					if env.preMode && li.entryVals != nil {
+						if v, ok := li.entryVals[p]; ok {
+							return v, true
+						}
+					}
+					if v, ok := phiOver[p]; ok {
+						return v, true
+					}
+					return e.vals[p], true
+				}
+			}
 			if name == "#visited" {
 				// the visited set of this map range, or of the closest enclosing one
 				for _, in := range li.header.Instrs {
@@ -1308,6 +1369,33 @@ func (e *FnEnc) lookupName1(env *Env, name string, phiOver map[*ssa.Phi]Val) (Va
 		if okU && uniq != nil {
 			if v, ok := e.vals[uniq]; ok {
 				return v, true
+			}
+		}
+		if okU && uniq == nil {
+			// only the declaration's zero value has been met so far ("x := []T{...}" records x as nil before the
+			// literal is built): if every later mention of the variable is one value that is already encoded, that is x
+			var later ssa.Value
+			one := true
+			for _, b := range e.fn.Blocks {
+				for _, in := range b.Instrs {
+					d, isD := in.(*ssa.DebugRef)
+					if !isD || d.Object() == nil || d.Object().Name() != name || d.IsAddr {
+						continue
+					}
+					if _, isC := d.X.(*ssa.Const); isC {
+						continue
+					}
+					if later == nil || later == d.X {
+						later = d.X
+					} else {
+						one = false
+					}
+				}
+			}
+			if one && later != nil {
+				if v, ok := e.vals[later]; ok {
+					return v, true
+				}
 			}
 		}
 		// otherwise: the closest binding that dominates the site
@@ -1697,4 +1785,36 @@ func sameMapExpr(a, b ssa.Value) bool {
 	fa, ok1 := ua.X.(*ssa.FieldAddr)
 	fb, ok2 := ub.X.(*ssa.FieldAddr)
 	return ok1 && ok2 && fa.X == fb.X && fa.Field == fb.Field
+}
+
+// canonicalCounter: a header phi of integer type that is 0 on every entry edge and itself plus 1 on every back edge.
+func canonicalCounter(p *ssa.Phi, li *loopInfo) bool {
+	if b, ok := p.Type().Underlying().(*types.Basic); !ok || b.Info()&types.IsInteger == 0 {
+		return false
+	}
+	if p.Comment == "rangeindex" {
+		return false
+	}
+	entries, backs := 0, 0
+	for k, pred := range p.Block().Preds {
+		x := p.Edges[k]
+		if li.blocks[pred] {
+			bo, ok := x.(*ssa.BinOp)
+			if !ok || bo.Op != token.ADD || bo.X != ssa.Value(p) {
+				return false
+			}
+			c, ok := bo.Y.(*ssa.Const)
+			if !ok || c.Value == nil || c.Int64() != 1 {
+				return false
+			}
+			backs++
+		} else {
+			c, ok := x.(*ssa.Const)
+			if !ok || c.Value == nil || c.Int64() != 0 {
+				return false
+			}
+			entries++
+		}
+	}
+	return entries > 0 && backs > 0
 }
